@@ -2,6 +2,8 @@ package larking
 
 import "time"
 
+func init() { vfHarnesses["VerifH_timeout"] = VerifH_timeout }
+
 // VerifH_timeout: decodeTimeout on every string of length 0..10 against refTimeout (C15, C09).
 func VerifH_timeout() {
 	n := vfLen(10)
